@@ -55,7 +55,7 @@ Flat(ix, t, j) == IF j > Len(ix) THEN <<>>
                        <<ix[j], IF va = <<>> \/ ~tagged THEN 0 ELSE va[1],
                          IF Len(va) = 2 /\ tagged THEN 1 ELSE 0>> \o Flat(ix, t, j + 1)
 Emit == LET o == OrdOf(doc, tv)
-            ix == Order(doc, o) IN
+            ix == DocOrder(doc, o) IN
         PrintT(<<"CASE", VerNum(ver), tv, IF o = "asc" THEN 0 ELSE 1,
                  IF tv = FullTv(doc) /\ SumSet(doc) % FULLMOD = 0 THEN 1 ELSE 0, Len(ix)>> \o Flat(ix, tv, 1))
 
